@@ -214,6 +214,7 @@ def run_history(be, N, steps, cls='CliffordCircuit'):
     circ = cm.identity_circuit(N) if (be == 'torch' or cls == 'CliffordCircuit') else cm.Circuit(N)
     prog, gates = [], []
     stale = False
+    kept = []        # circuits that were copied from: (circuit, its gate dicts, its gates, stale?) - they must not follow the copy
     for stp in steps:
         t = stp['t']
         if t == 'take':
@@ -230,7 +231,9 @@ def run_history(be, N, steps, cls='CliffordCircuit'):
                 layer.compile(N)
             stale = circ.forward_map is not None and stale
         elif t == 'copy' and hasattr(circ, 'copy'):
+            kept.append((circ, list(prog), list(gates), stale))
             circ = circ.copy()
+    run_history.kept = kept
     return circ, prog, gates, stale
 
 
@@ -244,6 +247,11 @@ def f_history(case):
     if not stale:
         total = C.program_ref(prog, N, gates)
         C.expect_list(got[:2], total.apply(L, K), 'circuit built by the history %s: forward vs reference product of %d gates' % ([x['t'] for x in case['steps']], len(prog)), 'history-forward')
+    for (c0, p0, g0, st0) in run_history.kept:
+        if not st0:
+            o0 = B.backend(be).plist(L, K) if kind != 'state' else make_input(be, N, case['input'])[0]
+            c0.forward(o0)
+            C.expect_list(read_obj(be, o0, kind)[:2], C.program_ref(p0, N, g0).apply(L, K), 'the circuit that was copied from (then the copy was extended): forward vs its own %d gates' % len(p0), 'history-original')
     ts = [x['t'] for x in case['steps']]
     comp = [i for i, x in enumerate(ts) if x in ('compile', 'compile-layers')]
     recompiled = len(comp) >= 2 and any(x == 'take' for x in ts[comp[0]:comp[-1]])
@@ -260,7 +268,7 @@ def st_history(be, hiN, kinds=None, classes=('CliffordCircuit', 'Circuit')):
 
 
 FACETS.append(Facet('np/build-histories', f_history, strategy=lambda t: st_history('np', 4), examples={'quick': 1500, 'thorough': 60000}, shards={'quick': 3, 'thorough': 12}))
-FACETS.append(Facet('torch/build-histories', f_history, strategy=lambda t: st_history('torch', 3, ['rot', 'rotc', 'fmap', 'bmap'], ('CliffordCircuit',)), examples={'quick': 200, 'thorough': 8000},
+FACETS.append(Facet('torch/build-histories', f_history, strategy=lambda t: st_history('torch', 4, ['rot', 'rotc', 'fmap', 'bmap'], ('CliffordCircuit',)), examples={'quick': 700, 'thorough': 20000},
                     shards={'quick': 1, 'thorough': 4}, backend='torch'))
 
 
